@@ -31,8 +31,15 @@ def _impl(tier, seed, search):
     if search: n *= 3
     L = Laws('C07', rule='(class x container form x defect kind x position) enumerated for every class; members perturbed by 1e-12..1 in any entry, '
                          'reflections, last-row corruptions; predicates with check on; a case = one constructor call or predicate evaluation')
+    special = [None]
     def good(cname):
-        return dict(SO2=lambda: inputs.so2(g), SE2=lambda: inputs.se2(g, 2), SO3=lambda: inputs.so3(g), SE3=lambda: inputs.se3(g, 2))[cname]()
+        M = dict(SO2=lambda: inputs.so2(g), SE2=lambda: inputs.se2(g, 2), SO3=lambda: inputs.so3(g), SE3=lambda: inputs.se3(g, 2))[cname]()
+        n_ = 2 if cname in ('SO2', 'SE2') else 3
+        # special members on which predicates may take short cuts: identity rotation block (pure translation), the identity, a half turn
+        if special[0] == 'puretrans': M[:n_, :n_] = np.eye(n_)
+        elif special[0] == 'identity': M = np.eye(M.shape[0])
+        elif special[0] == 'halfturn': M[:n_, :n_] = np.diag([-1.0, -1.0] + [1.0] * (n_ - 2))
+        return M
     def defects(cname, M):
         """(kind, matrix) — every one is farther than 1e-6 from the group"""
         n_ = 2 if cname in ('SO2', 'SE2') else 3
@@ -53,6 +60,7 @@ def _impl(tier, seed, search):
             if not r <= 1e-6: return False, f'element at distance {r:.3g} from the group'
         return True, ''
     for it in range(n):
+        special[0] = {1: 'puretrans', 2: 'identity', 3: 'halfturn', 5: 'puretrans'}.get(it % 8)
         for cname, cls in CLS.items():
             G1, G2 = good(cname), good(cname)
             for kind, Bad in defects(cname, G1):
